@@ -255,6 +255,9 @@ func init() {
 								res := lib.EvalOpts(comp, input(), lib.EnvOpts(map[string]any{"p": vals[b.p].v, "q": vals[b.q].v})...)
 								r.Eval()
 								got, want := obs3(res), ref(vals[b.p].t, vals[b.q].t)
+								for k2 := range res.Coll {
+									res.Coll[k2] = system.String("slot-overwritten-by-the-caller") // the result belongs to the caller
+								}
 								r.State(fmt.Sprintf("rebinding|%s|%s|%s", src, vals[b.p].name, vals[b.q].name))
 								r.Nontrivial(src, vals[b.p].name, vals[b.q].name, got)
 								if got != want {
